@@ -242,6 +242,10 @@ rc_op('cif_container_set_value:new', 'cif_container_set_value', lambda L, fx: (f
 rc_op('cif_container_set_value:new-null', 'cif_container_set_value', lambda L, fx: (fx.b2, U('_brand_new'), None))
 rc_op('cif_container_set_value:replace', 'cif_container_set_value', lambda L, fx: (fx.b1, U('_S_CHAR'), fx.v_list))
 rc_op('cif_container_set_value:in-loop', 'cif_container_set_value', lambda L, fx: (fx.b1, U('_l2'), fx.v_char))
+rc_op('cif_container_set_value:new-numb', 'cif_container_set_value', lambda L, fx: (fx.b2, U('_number'), fx.v_numb))
+rc_op('cif_container_set_value:replace-with-numb', 'cif_container_set_value', lambda L, fx: (fx.b1, U('_s_list'), fx.v_numb))
+rc_op('cif_packet_set_item:replace-with-numb', 'cif_packet_set_item', lambda L, fx: (fx.pk, U('_l1'), fx.v_numb))
+rc_op('cif_value_set_element_at:numb', 'cif_value_set_element_at', lambda L, fx: (fx.v_list, 0, fx.v_numb))
 rc_op('cif_container_remove_item:scalar', 'cif_container_remove_item', lambda L, fx: (fx.b1, U('_s_numb')))
 rc_op('cif_container_remove_item:loop', 'cif_container_remove_item', lambda L, fx: (fx.b1, U('_l3')))
 rc_op('cif_loop_set_category', 'cif_loop_set_category', lambda L, fx: (fx.loop, U('newcat')))
@@ -332,6 +336,13 @@ def _(L, fx):
 def _(L, fx):
     p = C.c_void_p(fx.v_char)
     rc = yield (lambda: L.call('cif_value_clone', fx.v_table, C.byref(p)))
+    return None
+
+
+@op('cif_value_clone:numb-into-existing')
+def _(L, fx):
+    p = C.c_void_p(fx.v_table)
+    rc = yield (lambda: L.call('cif_value_clone', fx.v_numb, C.byref(p)))
     return None
 
 
